@@ -418,6 +418,7 @@ func main() {
 		return
 	}
 	s := hlib.NewSuite(cfg, "conc")
+	defer s.FinishOnPanic()
 	s.Header = "From QF Require Import Base.Prelude Base.CaseLib Corr.HeapCorr.\nLocal Open Scope N_scope.\n"
 	s.CaseType = "N * bool"
 	s.CheckFn = "check_conc"
